@@ -173,8 +173,7 @@ def cmdOrbDfs (a : Args) : String :=
 
 def modeOf (s : String) : Mode := if s = "det" then .det else if s = "rand" then .rand else .other
 
-def drawsOf (s : String) : List (List Bool) :=
-  if s = "" ∨ s = "-" then [] else (splitChar ',' s).map boolsOf
+def drawsOf (s : String) : List Bool := if s = "" ∨ s = "-" then [] else boolsOf s
 
 def cmdEquiv (a : Args) : String :=
   let g := graphOf a
